@@ -119,7 +119,7 @@ func runShard(p *props.Prop, tier string, shard, nshards int, out string, deadli
 			timeIt()
 			continue
 		}
-		e := &mc.Explorer{Name: h.Name, Body: h.Body, R: r, Shard: shard, NShards: nshards, Reset: h.Reset}
+		e := &mc.Explorer{Name: h.Name, Body: h.Body, R: r, Shard: shard, NShards: nshards, Reset: h.Reset, ShardDepth: h.ShardDepth}
 		if h.Dev != nil {
 			e.DevBound = h.Dev()
 		}
